@@ -20,7 +20,19 @@ for name in sorted(os.listdir(os.path.join(ROOT, "seeded"))):
     reset()
     r = sh("git", "-C", WT, "apply", os.path.join(d, "patch.diff"))
     if r.returncode:
-        rows.append((name, "PATCH DOES NOT APPLY")); continue
+        # later "fix:" commits may have moved the lines: three-way merge, then fuzzy context, before giving up
+        r = sh("git", "-C", WT, "apply", "-3", os.path.join(d, "patch.diff"))
+        unmerged = sh("git", "-C", WT, "diff", "--name-only", "--diff-filter=U").stdout.strip()
+        sh("git", "-C", WT, "reset", "-q")
+        if r.returncode or unmerged:
+            reset()
+            r = subprocess.run(["patch", "-p1", "-F3", "-s", "-i", os.path.join(d, "patch.diff")], cwd=WT, capture_output=True, text=True)
+    if r.returncode:
+        reset()
+        meta["stale_note"] = ("patch.diff no longer applies to the repaired tree (a later fix: commit rewrote the lines it touches); "
+                              "'last_run' is the last head it was run against")
+        json.dump(meta, open(os.path.join(d, "meta.json"), "w"), indent=1)
+        rows.append((name, "PATCH DOES NOT APPLY")); print(rows[-1], flush=True); continue
     res = {}
     for c in sorted(set([meta["property"]] + meta.get("also_check", []))):
         t0 = time.time()
